@@ -86,6 +86,10 @@ def groups(tier, seed):
     return out
 
 
+def count(group):
+    """closed-form size of a group (independent of the generator): one vectorised case"""
+    return 1
+
 def cases(group):
     yield dict(group)
 
